@@ -54,6 +54,9 @@ def attr_names(ex, obj):
 def hasattr_sym(ex, obj, name, fr):
     if isinstance(obj, VNone):
         return VBool(False)
+    if isinstance(obj, VRef) and isinstance(ex.st.cell(obj), HDict):
+        # a plain dict: its attributes are the names of type dict (keys are NOT attributes)
+        return VBool(z3.Or(*[z_str(name.v) == a for a in DICT_ATTRS]))
     if not (isinstance(obj, VRef) and isinstance(ex.st.cell(obj), HObj)):
         raise Unsupported("hasattr(<non-object>, <symbolic name>)")
     for a in attr_names(ex, obj):
@@ -172,7 +175,7 @@ def mk_cfg(u):
 
 
 # ---- the scenario processor ------------------------------------------------------------------------------------
-def mk_processor(ex, u, enabled=None, decoy=True):
+def mk_processor(ex, u, enabled=None, decoy=True, nested=False):
     w, st = u.world, ex.st
     fr = Frame(None, None)
 
@@ -195,8 +198,17 @@ def mk_processor(ex, u, enabled=None, decoy=True):
         st.assume(z3.And(nme.v != "arguments", nme.v != "enabled"))
     for s_ in names + argn:
         st.assume(z3.And(z3.Not(z3.Contains(s_.v, z3.StringVal("."))), z3.Length(s_.v) > 0))
+    nest = None
+    if nested:
+        # an argument that is itself a dictionary (arguments: {settings: {level: .., offset: ..}}): its entries are settings addressed by
+        # ...arguments.<nested arg>.<sub key>
+        nest = {"arg": VStr(z3.String("nested_arg_name")), "sub": [VStr(z3.String("sub_key_0")), VStr(z3.String("sub_key_1"))]}
+        st.assume(z3.And(nest["arg"].v != argn[0].v, nest["arg"].v != argn[1].v, nest["sub"][0].v != nest["sub"][1].v))
+        for s_ in [nest["arg"]] + nest["sub"]:
+            st.assume(z3.And(z3.Not(z3.Contains(s_.v, z3.StringVal("."))), z3.Length(s_.v) > 0))
+        nest["dict"] = st.alloc(HDict([(nest["sub"][0], VInt(z3.Int("sub_v0"))), (nest["sub"][1], VInt(z3.Int("sub_v1")))]))
     for i in range(2):
-        d = st.alloc(HDict([(argn[0], VInt(z3.Int(f"m{i}_a0"))), (argn[1], VInt(z3.Int(f"m{i}_a1")))]))
+        d = st.alloc(HDict([(argn[0], VInt(z3.Int(f"m{i}_a0"))), (argn[1], VInt(z3.Int(f"m{i}_a1")))] + ([(nest["arg"], nest["dict"])] if nested and i == 0 else [])))
         en = VBool(z3.Bool(f"enabled_{i}")) if enabled is None else VBool(enabled)
         models.append(ex.instantiate(mci, [], {"func": VStr(f"pkg.mod.f{i}"), "name": names[i], "arguments": d, "enabled": en}, Frame(None, mci.module)))
     pci = w.cls(f"{PL}::DetectionPipeline")
@@ -212,13 +224,13 @@ def mk_processor(ex, u, enabled=None, decoy=True):
     pipe = ex.instantiate(pci, [], groups, Frame(None, pci.module))
     prc = w.cls(f"{PR}::Processor")
     proc = st.alloc(HObj(prc, {"detector": det, "pipeline": pipe, "observation": NONE, "_result": NONE, "_numbytes": VInt(0), "_log": VOpaque("logger")}))
-    ex.scn = {"proc": proc, "det": det, "geo": geo, "env": env, "cht": cht, "pipe": pipe, "models": models, "names": names, "argn": argn}
+    ex.scn = {"proc": proc, "det": det, "geo": geo, "env": env, "cht": cht, "pipe": pipe, "models": models, "names": names, "argn": argn, "nest": nest}
     # the group's model names must not collide with real attributes of ModelGroup (else normal lookup wins)
     grp = ex.getattr(pipe, GROUP, fr)
     for nme in names + ([dn] if decoy else []):
         for a in attr_names(ex, grp):
             st.assume(nme.v != a)
-    for an in argn:
+    for an in argn + ([nest["arg"]] if nested else []):
         for a in attr_names(ex, st.cell(models[0]).fields["_arguments"]):
             st.assume(an.v != a)
     return proc
@@ -236,7 +248,7 @@ def fresh_unknown(ex, obj, label):
             for nme in ex.scn["names"]:
                 ex.st.assume(s.v != nme.v)
         if getattr(cell.cls, "name", "") == "Arguments":
-            for an in ex.scn["argn"]:
+            for an in ex.scn["argn"] + ([ex.scn["nest"]["arg"]] if ex.scn.get("nest") else []):
                 ex.st.assume(s.v != an.v)
     return s
 
@@ -244,6 +256,9 @@ def fresh_unknown(ex, obj, label):
 SECTIONS = {"geometry": ["row", "col", "total_thickness", "pixel_vert_size", "pixel_horz_size", "pixel_scale"],
             "environment": ["temperature"],
             "characteristics": ["quantum_efficiency", "charge_to_volt_conversion", "pre_amplification", "full_well_capacity", "adc_bit_resolution"]}
+
+
+DICT_ATTRS = [a for a in dir(dict)]      # (a sub key spelt like a method of dict resolves through hasattr: stated corner case of the key grammar)
 
 
 def key_scenarios():
@@ -273,6 +288,18 @@ def key_scenarios():
         L.make_key([VStr("pipeline"), VStr(GROUP), ex.scn["names"][0], fresh_unknown(ex, ex.scn["models"][0], "inserted"), VStr("enabled")]), False)))
     out.append((f"pipeline.{GROUP}.<model0>.arguments.<unknown>.<arg0>", lambda ex: (
         L.make_key([VStr("pipeline"), VStr(GROUP), ex.scn["names"][0], VStr("arguments"), fresh_unknown(ex, ex.st.cell(ex.scn["models"][0]).fields["_arguments"], "inserted"), ex.scn["argn"][0]]), False)))
+    # entries of an argument that is itself a dictionary: an existing sub key resolves, a misspelt one does not (and must not be CREATED)
+    def nested_key(ex, last):
+        return L.make_key([VStr("pipeline"), VStr(GROUP), ex.scn["names"][0], VStr("arguments"), ex.scn["nest"]["arg"], last])
+
+    def unknown_sub(ex):
+        s_ = VStr(z3.String("misspelt_sub_key"))
+        ex.st.assume(z3.And(z3.Not(z3.Contains(s_.v, z3.StringVal("."))), z3.Length(s_.v) > 0, s_.v != ex.scn["nest"]["sub"][0].v, s_.v != ex.scn["nest"]["sub"][1].v))
+        for a in DICT_ATTRS:
+            ex.st.assume(s_.v != a)
+        return s_
+    out.append((f"pipeline.{GROUP}.<model0>.arguments.<nested arg>.<sub key>", lambda ex: (nested_key(ex, ex.scn["nest"]["sub"][0]), True)))
+    out.append((f"pipeline.{GROUP}.<model0>.arguments.<nested arg>.<unknown>", lambda ex: (nested_key(ex, unknown_sub(ex)), False)))
     out.append(("pipeline.charge_transfer.<model0>.arguments.<arg0>", lambda ex: (
         L.make_key([VStr("pipeline"), VStr("charge_transfer"), ex.scn["names"][0], VStr("arguments"), ex.scn["argn"][0]]), False)))
     return out
@@ -344,6 +371,23 @@ for key in ('detector.geometry.rowx', 'detector.geometri.row', 'pipeline.photon_
         if settings(proc) != before:
             VIOLATED, DETAIL = True, f'set({key!r}) raised {e!r} but changed settings'; break
 if not VIOLATED:
+    # entries of an argument that is itself a dictionary: an existing entry can be set, a misspelt / truncated one is refused and never created
+    pipe2 = DetectionPipeline(photon_collection=[ModelFunction(func='verif_probes.probe', name='flat', arguments={'settings': {'level': 100, 'offset': 0}, 'gain': 2})])
+    proc2 = Processor(detector=VP.detector(), pipeline=pipe2)
+    base = 'pipeline.photon_collection.flat.arguments.settings.'
+    for bad in ('levle', 'lev', 'levels'):
+        before = copy.deepcopy(dict(pipe2.photon_collection.models[0].arguments))
+        try:
+            proc2.set(base + bad, 250)
+            VIOLATED, DETAIL = True, f'set({base + bad!r}, 250) accepted (has() says {proc2.has(base + bad)}); arguments now {dict(pipe2.photon_collection.models[0].arguments)}'; break
+        except Exception:
+            if dict(pipe2.photon_collection.models[0].arguments) != before:
+                VIOLATED, DETAIL = True, f'set({base + bad!r}) raised but changed the arguments'; break
+    if not VIOLATED:
+        proc2.set(base + 'level', 250)
+        if dict(pipe2.photon_collection.models[0].arguments) != {'settings': {'level': 250, 'offset': 0}, 'gain': 2}:
+            VIOLATED, DETAIL = True, f'set({base}level, 250): arguments {dict(pipe2.photon_collection.models[0].arguments)}'
+if not VIOLATED:
     for key, val in (('detector.geometry.row', 7), ('detector.characteristics.quantum_efficiency', 0.25), ('pipeline.photon_collection.illum.arguments.level', 9),
                      ('pipeline.photon_collection.other.enabled', True)):
         before = settings(proc)
@@ -371,7 +415,7 @@ def has_unit(u: Unit):
         holder = {}
 
         def setup(ex, build=build):
-            proc = mk_processor(ex, u)
+            proc = mk_processor(ex, u, nested=True)
             key, res = build(ex)
             holder["res"] = res
             return [proc, key], {}
@@ -402,11 +446,11 @@ def set_unit(u: Unit):
         earlier = VFloat(0.5) if "quantum" in label else VInt(5) if ("row" in label or "col" in label or "adc" in label) else VFloat(2.0) if "detector." in label else \
             VBool(False) if label.endswith("enabled") else VInt(z3.Int("earlier_value"))
 
-        def setup(ex, build=build, val=val, earlier=earlier):
-            proc = mk_processor(ex, u)
+        def setup(ex, build=build, val=val, earlier=earlier, label=label):
+            proc = mk_processor(ex, u, nested=True)
             key, res = build(ex)
             holder.pop("history_failed", None)
-            if res:
+            if res and "<nested arg>" not in label:
                 # HISTORY: the setting was read, assigned another value and read again before the assignment under check (a sweep assigns
                 # the same key run after run): nothing remembered from those calls may survive into the read after this one
                 fr0 = Frame(None, fg.module)
@@ -429,6 +473,13 @@ def set_unit(u: Unit):
                 u.oblige(p, f"set.accepts_existing[{label}]", False, {"exc": p.exc_name() or holder.get("history_failed")}, KEY_REPLAY)
                 continue
             u.oblige(p, f"set.frame[{label}]", len(ch) == 1, {"changed": str(ch)[:300]}, KEY_REPLAY)
+            if "<nested arg>" in label:
+                # (Processor.get does not read entries of a dictionary-valued argument -- attrgetter -- and the statement lists fields, arguments
+                # and enabled flags as readable keys: here the entry itself is inspected)
+                items = dict((str(k.v), v) for k, v in p.st.cell(p.ex.scn["nest"]["dict"]).items)
+                got = items.get(str(p.ex.scn["nest"]["sub"][0].v))
+                u.oblige(p, f"set.roundtrip[{label}]", bool(got is val or (hasattr(got, "v") and got.v is val.v)), {}, KEY_REPLAY)
+                continue
             try:
                 got = p.ex.call_function(VFunc(fg), [p.ex.scn["proc"], holder["key"]], {}, Frame(None, fg.module))
                 same = got is val or (type(got) is type(val) and hasattr(got, "v") and (got.v is val.v or (is_conc(got.v) and got.v == val.v)))
@@ -512,7 +563,7 @@ for decoy_group in ('scene_generation', 'charge_generation'):
             holder = {}
 
             def setup(ex, build=build, en=en):
-                proc = mk_processor(ex, u, enabled=en, decoy=en is None)
+                proc = mk_processor(ex, u, enabled=en, decoy=en is None, nested=True)
                 key, res = build(ex)
                 holder["res"] = res
                 step = ex.st.alloc(HObj(pvc, {"_key": key, "_values": ex.st.alloc(HList([VInt(1), VInt(2)])), "_enabled": VBool(True), "_type": VStr("int")}))
